@@ -321,6 +321,12 @@ pub fn check_case(case: &C07Case) -> (Vec<Violation>, Counters, bool, Option<Wri
         eintr_burst: case.eintr_burst.max(1),
         ..Default::default()
       });
+      // a sink that re-enters the library on its first write
+      plans.push(WriterPlan {
+        reenter: true,
+        max_chunk: case.max_chunk.max(1),
+        ..Default::default()
+      });
       // fragmentation only, scatter/gather sink, every chunk size up to 7
       for m in 1..=7 {
         plans.push(WriterPlan {
@@ -346,6 +352,16 @@ pub fn check_case(case: &C07Case) -> (Vec<Violation>, Counters, bool, Option<Wri
       }
       counters.add("probe:write_calls_after_error", io.calls_after_error);
       counters.add("probe:write_vectored_calls", io.vectored_calls);
+      counters.add("probe:sink_reentered_the_library", io.reentered);
+      if io.reenter_mismatch > 0 {
+        violations.push(Violation {
+          kind: "writer".into(),
+          op_class: "to_writer".into(),
+          detail: format!("plan {:?}: a to_writer call made by the sink itself, while the outer to_writer was inside write(), wrote the wrong bytes or failed", plan),
+        });
+        first_bad = Some(plan.clone());
+        break;
+      }
     }
     if let Some(d) = judge_written(&a, plan, &bytes) {
       violations.push(Violation {
